@@ -4,6 +4,7 @@
 package main
 
 //@ import "github.com/Cloud-Foundations/keymaster/lib/vip"
+//@ import "github.com/Cloud-Foundations/keymaster/keymasterd/admincache"
 //@ import "github.com/Cloud-Foundations/keymaster/lib/pwauth/okta"
 //@ import "github.com/tstranex/u2f"
 //@ import "github.com/duo-labs/webauthn/webauthn"
@@ -110,6 +111,8 @@ package main
 //@   ghostset ghostAuthIssuedAt int64 = timeNanos(ai.IssuedAt) if err == nil
 //@   ghostset ghostVerifiedBits int = 0
 //@   ghostset ghostBootstrapCleared bool = false
+//@   ghostset ghostIsAdmin bool = false
+//@   ghostset ghostIsAutomationAdmin bool = false
 //@   ensures err == nil ==> ai.AuthType & requiredAuthType != 0                                             #C06.kind @C06
 //@   ensures err == nil ==> viaCookie(state, ai) || viaTLS(state, r, ai) || viaPassword(state, ai)           #C06.established @C06,C01,C04
 //@   ensures err == nil && r.Method != "GET" && getOriginOrReferrer(r) != "" && r.Host != "" ==> urlHostOf(getOriginOrReferrer(r)) == r.Host  #C06.csrf @C06
@@ -140,6 +143,8 @@ package main
 //@ func checkUserPassword
 //@   requires ghostPwToken                                                                                #C14.limiter-first @C14
 //@   ghostset ghostPwToken bool = false
+//@   ghostset ghostPasswordUser string = username
+//@   ghostset ghostPasswordOK bool = ret0 && ret1 == nil
 //@   ensures ret0 ==> ret1 == nil && passwordAccepted(passwordChecker, username, password)                  #C07.backend-verdict @C07
 //@   ensures ret0 ==> passwordChecker != nil && backendAccepts(passwordChecker, username, password)
 
@@ -176,15 +181,19 @@ package main
 //@ func (*RuntimeState).parseRoleCertGenParams
 //@   results params, userErr, err
 //@   ensures userErr == nil && err == nil ==> params != nil && strongKey(params.UserPub)                  #C10.role-strong @C10
+//@   ensures userErr == nil && err == nil ==> params != nil && automationUser(state, params.Role)          #C08.role-parse-automation @C08
 //@   ensures userErr == nil && err == nil ==> params != nil && params.Duration == maxRoleRequestingCertDuration  #C03.role-45d @C03
 //@   ensures fresh(params)
 //@ func (*RuntimeState).parseRefreshRoleCertGenParams
 //@   results params, userErr, err
 //@   ensures userErr == nil && err == nil ==> params != nil && strongKey(params.UserPub)                  #C10.refresh-strong @C10
 //@   ensures userErr == nil && err == nil ==> params != nil && params.Duration == maxRoleRequestingCertDuration  #C03.refresh-45d @C03
-//@   ensures userErr == nil && err == nil ==> params != nil && params.Role == authData.Username            #C11.refresh-identity @C11
+//@   ensures userErr == nil && err == nil ==> params != nil && params.Role == authData.Username            #C11.refresh-identity @C11,C08
+//@   ensures userErr == nil && err == nil ==> params != nil && automationUser(state, params.Role)          #C08.refresh-parse-automation @C08
 //@   ensures fresh(params)
 //@ func (*RuntimeState).withParamsGenerateRoleRequestingCert
+//@   requires params != nil && (ghostIsAutomationAdmin || params.Role == ghostAuthUser)                   #C08.role-mint-admin-or-self-refresh @C08
+//@   requires params != nil && automationUser(state, params.Role)                                        #C08.role-automation-identity @C08
 //@   requires params != nil && strongKey(params.UserPub)                                                 #C10.role-gen-strong @C10
 //@   requires params != nil && params.Duration <= maxRoleRequestingCertDuration                          #C03.role-gen-45d @C03
 //@   requires ghostAuthed                                                                                #C06.authed-role @C06
@@ -253,6 +262,7 @@ package main
 // a code of the 30 s period that was already accepted is not evaluated again (C05 one-time)
 //@ pure func totpPeriodOf(t time_.Time) int64 = int64(fpFloor(float64(timeNanos(t) / 1000000000) / float64(30)))
 //@ func (*RuntimeState).validateUserTOTP
+//@   requires ghostAuthed && username == ghostAuthUser                                                    #C08.totp-own-profile @C08,C06
 //@   ghostset ghostVerifiedBits int = ghostVerifiedBits | AuthTypeTOTP if ret0 && ret1 == nil && username == ghostAuthUser
 //@   atcall github.com/pquerna/otp/totp.Validate requires (passcode string, secret string) :: ghostProfileUser == username && ghostProfile.LastSuccessfullTOTPCounter != totpPeriodOf(t)  #C05.totp-one-time @C05
 //@   atcall github.com/pquerna/otp/totp.Validate requires (passcode string, secret string) :: timeNanos(old(state.totpLocalRateLimit[username].lastCheckTime)) + 2000000000 <= nowNanos()  #C14.totp-spacing @C14
@@ -278,6 +288,7 @@ package main
 //@ ghost var ghostProfileUser string
 //@ func (*RuntimeState).LoadUserProfile
 //@   results profile, ok, fromCache, err
+//@   requires (ghostAuthed && (username == ghostAuthUser || ghostIsAdmin)) || (ghostPasswordOK && username == ghostPasswordUser)  #C08.read-self-or-admin @C08,C06
 //@   ghostset ghostProfile *userProfile = profile if err == nil
 //@   ghostset ghostProfileUser string = username if err == nil
 //@   ensures err == nil ==> profile != nil
@@ -318,3 +329,62 @@ package main
 //@ callers certgen.GenSSHCertFileString only (*RuntimeState).postAuthSSHCertHandler, GenSSHCertFileStringFromSSSDPublicKey #C06.ssh-signing-entry @C06,C01
 //@ callers certgen.GenUserX509Cert only (*RuntimeState).postAuthX509CertHandler #C06.x509-signing-entry @C06,C01
 //@ callers certgen.GenIPRestrictedX509Cert only (*RuntimeState).withParamsGenerateRoleRequestingCert #C06.role-signing-entry @C06
+
+// ---- C08: users manage only themselves; administration needs admin rights (+ U2F for token changes) ------------
+// verdict of IsAdminUser / isAutomationAdmin for the user checkAuth established in this request (reset by checkAuth)
+//@ ghost var ghostIsAdmin bool
+//@ ghost var ghostIsAutomationAdmin bool
+// what the admin sources (configured names, directory groups) say right now (uninterpreted)
+//@ ghost func adminDirectoryVerdict(state *RuntimeState, user string) bool
+
+//@ func (*RuntimeState)._IsAdminUser
+//@   assume ret1 == nil ==> ret0 == adminDirectoryVerdict(state, user)
+//@ func (*RuntimeState).IsAdminUser
+//@   ghostset ghostIsAdmin bool = ret0 if user == ghostAuthUser
+//@   atcall admincache.Cache).Get sets ghostCacheValid bool (c *admincache.Cache, user2 string, isAdmin bool, valid bool) :: valid
+//@   atcall admincache.Cache).Get sets ghostCacheVal bool (c *admincache.Cache, user2 string, isAdmin bool, valid bool) :: isAdmin
+//@   atcall admincache.Cache).Get sets ghostCachePut bool (c *admincache.Cache, user2 string, isAdmin bool, valid bool) :: false
+//@   atcall RuntimeState)._IsAdminUser sets ghostDirOK bool (s2 *RuntimeState, user2 string, ans bool, err error) :: err == nil
+//@   atcall RuntimeState)._IsAdminUser sets ghostDirAns bool (s2 *RuntimeState, user2 string, ans bool, err error) :: ans
+//@   atcall admincache.Cache).Put requires (c *admincache.Cache, user2 string, val bool) :: !ghostCacheValid && user2 == user && ((ghostDirOK && val == ghostDirAns) || (!ghostDirOK && val == ghostCacheVal))  #C08.recache-right-value @C08
+//@   atcall admincache.Cache).Put sets ghostCachePut bool (c *admincache.Cache, user2 string, val bool) :: true
+//@   ensures ghostCacheValid ==> ret0 == ghostCacheVal                                                   #C08.fresh-cache-wins @C08
+//@   ensures !ghostCacheValid && ghostDirOK ==> ret0 == ghostDirAns && ghostCachePut                     #C08.re-evaluated-when-stale @C08
+//@   ensures !ghostCacheValid && !ghostDirOK ==> ret0 == ghostCacheVal && ghostCachePut                  #C08.stale-only-on-directory-error @C08
+//@ ghost var ghostCacheValid bool
+//@ ghost var ghostCacheVal bool
+//@ ghost var ghostCachePut bool
+//@ ghost var ghostDirOK bool
+//@ ghost var ghostDirAns bool
+//@ func (*RuntimeState).isAutomationAdmin
+//@   ghostset ghostIsAutomationAdmin bool = ret0 if user == ghostAuthUser
+//@ func loadVerifyConfigFile
+//@   atcall admincache.New requires (maxDuration time.Duration) :: maxDuration <= 5*time.Minute             #C08.cache-five-minutes @C08
+
+// effect primitives on user profiles
+//@ func (*RuntimeState).SaveUserProfile
+//@   requires ghostAuthed                                                                                #C06.authed-save @C06,C08
+//@   requires username == ghostAuthUser || (ghostIsAdmin && ghostAuthLevel & AuthTypeU2F != 0)             #C08.save-self-or-admin-u2f @C08
+//@ func (*RuntimeState).DeleteUserProfile
+//@   requires ghostAuthed && ghostIsAdmin                                                                #C08.delete-admin @C08,C06
+//@ func (*RuntimeState).GetUsers
+//@   requires ghostAuthed && ghostIsAdmin                                                                #C08.list-admin @C08,C06
+
+//@ func (*RuntimeState).sendFailureToClientIfNonAdmin
+//@   results failed, ai
+//@   ensures !failed ==> ghostAuthed && ghostIsAdmin && ai != nil && ai.Username == ghostAuthUser && ai.AuthType == ghostAuthLevel  #C08.admin-gate @C08
+//@ func (*RuntimeState).addUserHandler
+//@   atcall RuntimeState).SaveUserProfile overrides C08.save-self-or-admin-u2f (s2 *RuntimeState, username string, profile *userProfile) :: ghostIsAdmin  #C08.add-user-needs-admin @C08
+//@ func (*RuntimeState).generateBootstrapOTP
+//@   atcall RuntimeState).SaveUserProfile overrides C08.save-self-or-admin-u2f (s2 *RuntimeState, username string, profile *userProfile) :: ghostIsAdmin  #C08.bootstrap-otp-needs-admin @C08
+// login: the only profile change is the self-service bootstrap OTP of the user whose password was just accepted
+//@ ghost var ghostPasswordUser string
+//@ ghost var ghostPasswordOK bool
+//@ func (*RuntimeState).loginHandler
+//@   handler loginPath
+//@ func (*RuntimeState).trySelfServiceGenerateBootstrapOTP
+//@   requires ghostPasswordOK && username == ghostPasswordUser                                              #C08.self-service-own-password @C08,C06
+//@   atcall RuntimeState).SaveUserProfile overrides C06.authed-save (s2 *RuntimeState, username2 string, profile2 *userProfile) :: ghostPasswordOK && username2 == ghostPasswordUser  #C06.self-service-after-password @C06,C08
+//@   atcall RuntimeState).SaveUserProfile overrides C08.save-self-or-admin-u2f (s2 *RuntimeState, username2 string, profile2 *userProfile) :: ghostPasswordOK && username2 == ghostPasswordUser  #C08.self-service-own-profile @C08
+//@ func (*RuntimeState).userHasU2FTokens
+//@   requires (ghostAuthed && (username == ghostAuthUser || ghostIsAdmin)) || (ghostPasswordOK && username == ghostPasswordUser)  #C08.token-list-self-or-admin @C08,C06
